@@ -13,4 +13,5 @@ def units(tier):
     for k in range(NSHARDS):
         u.append(dict(kind="xlift", mechanism="xlift bounded (C), exact", name=f"xlift:rewrites[{k}/{NSHARDS}]", module="vf.tasks.t_rewrite", func="unit",
                       args=dict(shard=k, nshards=NSHARDS)))
+    u.append(dict(kind="func", mechanism="bounded runtime contract (C)", name="bounded:nested-groups", module="vf.tasks.t_rewrite", func="unit_nested", args={}))
     return u
